@@ -220,7 +220,7 @@ pub fn judge(
             ),
         }
         // round trip: the wall clock the implementation reported, mapped back
-        if case.tight {
+        if case.tight || rt.is_empty() {
             continue;
         }
         if let Res::Single(o) = &inst[k] {
@@ -385,8 +385,45 @@ pub fn route_public(case: &Case, p: &Probes, rng: &mut Rng, decoys: &[Arc<Vec<u8
         })
         .collect();
     let rt = w.batch(rt_req)?;
+    // the same value asked in both directions back to back (instant then wall clock, wall clock
+    // then instant): answers must not depend on what was asked just before
+    let mut mixed_req: Vec<(Api, i64)> = Vec::new();
+    let n = p.instants.len().min(p.walls.len()).min(48);
+    for k in 0..n {
+        let t = if k % 2 == 0 { p.instants[k] } else { p.walls[k] };
+        if k % 4 < 2 {
+            mixed_req.push((UTC_APIS[k % 4], t));
+            mixed_req.push((LOCAL_APIS[k % 4], t));
+        } else {
+            mixed_req.push((LOCAL_APIS[k % 4], t));
+            mixed_req.push((UTC_APIS[k % 4], t));
+        }
+    }
+    let mixed = w.batch(mixed_req.clone())?;
     world.end_conv();
+    MIXED.with(|m| *m.borrow_mut() = mixed_req.into_iter().zip(mixed).collect());
     Ok((inst, wall, rt))
+}
+
+thread_local! {
+    /// requests and answers of the last mixed-direction batch of `route_public`
+    static MIXED: std::cell::RefCell<Vec<((Api, i64), Res)>> = const { std::cell::RefCell::new(Vec::new()) };
+}
+
+/// Judge the mixed-direction batch recorded by the last `route_public` call.
+fn judge_mixed(case: &Case, tally: &mut Tally) -> Vec<Mismatch> {
+    let items = MIXED.with(|m| std::mem::take(&mut *m.borrow_mut()));
+    let mut out = Vec::new();
+    for ((api, t), res) in items {
+        let p = if api.is_local() {
+            Probes { instants: vec![], walls: vec![t], near: 0 }
+        } else {
+            Probes { instants: vec![t], walls: vec![], near: 0 }
+        };
+        let (i, w): (Vec<Res>, Vec<Res>) = if api.is_local() { (vec![], vec![res]) } else { (vec![res], vec![]) };
+        out.extend(judge(case, "Local-mixed-directions", &p, &i, &w, &[], tally));
+    }
+    out
 }
 
 #[derive(Serialize, Deserialize, Default)]
@@ -447,6 +484,7 @@ pub fn run_case(case: &Case, rng: &mut Rng, max_points: usize, sparse: usize, de
     let (i2, w2, r2) = route_public(case, &p, rng, decoys)?;
     let mut t2 = Tally::default();
     mm.extend(judge(case, "Local", &p, &i2, &w2, &r2, &mut t2));
+    mm.extend(judge_mixed(case, &mut t2));
     add_tally(&mut tally, &t2);
     Ok(CaseResult {
         mismatches: mm,
